@@ -210,6 +210,9 @@ fn exl_name() -> BoxedStrategy<String> {
     prop_oneof![
         3 => crate::gen::from_alphabet("abcdefghijklmnopqrstuvwxyzABCDEFGHIJKLMNOPQRSTUVWXYZ0123456789_/", 0, 24),
         1 => text(24, true),
+        // names as the real list has them, names that spell numbers or the header word, names with blanks around them, and
+        // one name in sixty long
+        1 => prop::sample::select(vec!["Achievement", "quest/000/ClsArc000_00002", "custom/000/CmnDefBeginning_00176", "0", "1", "-1", "007", "209", "EXLT2", "exlt", "EXL", " Action", "Action ", "Action,", "a#b", "x#"]).prop_map(|s| s.trim_end_matches(',').to_string()),
     ]
     .prop_map(|s| if s.starts_with('#') || s == "EXLT" { format!("x{}", s) } else { s })
     .boxed()
